@@ -25,8 +25,9 @@ def cases(tier, rng):
     # the client command as the CLI builds it (flags -> Command.Startup -> listener) against a server that cannot offer TLS ...
     for ins in (0, 1):
         for sec in (0, 1):
-            line = "c04cmd %d %d" % (ins, sec)
-            cs.append({"line": line, "key": line, "model": False, "tags": {"cert": "none", "ins": ins, "must": sec, "script": "command"}})
+            for early in (0, 1):     # early: a local peer is already connecting while the client starts up
+                line = "c04cmd %d %d %d" % (ins, sec, early)
+                cs.append({"line": line, "key": line, "model": False, "tags": {"cert": "none", "ins": ins, "must": sec, "script": "command"}})
     # ... and a TLS upstream object that connects again and again (as after every session loss) must start with a TLS hello each time
     for kind in ("tcp+tls", "wss"):
         line = "c04first %s 3" % kind
@@ -45,6 +46,10 @@ def oracle(case, impl):
         f = dict(zip(p[1::2], p[2::2]))
         if t["must"] and (f.get("echo") == "1" or f.get("leak") == "1" or f.get("hits") != "0"):
             return [("required-security-degraded;script=command", "the client was started with --secure (insecure=%d) against a server without TLS, yet application data was carried: %s" % (t["ins"], impl))]
+        early = case["line"].split()[3:4] == ["1"]
+        if not t["must"] and early:
+            # the early peer occupies start-up; its marker must have travelled
+            return [] if f.get("hits") != "0" else [("plain-session-refused;script=command", "without --secure the early connection should work: " + impl)]
         if not t["must"] and f.get("echo") != "1":
             return [("plain-session-refused;script=command", "without --secure the plain session should work: " + impl)]
         return []
